@@ -429,8 +429,7 @@ theorem advance_noLF (p : Pos) (v : Bytes) (hv : ∀ c ∈ v, c ≠ 10) : advanc
 
 theorem runeWidthsAux_succ (f : Nat) (s : Bytes) (h : s ≠ []) :
     runeWidthsAux (f + 1) s =
-      (if ((Utf8.decodeRune s).1 == Utf8.runeError && decide ((Utf8.decodeRune s).2 ≤ 1)) then 3
-        else max (Utf8.decodeRune s).2 1) :: runeWidthsAux f (s.drop (max (Utf8.decodeRune s).2 1)) := by
+      max (Utf8.decodeRune s).2 1 :: runeWidthsAux f (s.drop (max (Utf8.decodeRune s).2 1)) := by
   cases s with
   | nil => exact absurd rfl h
   | cons c rest => simp [runeWidthsAux]
@@ -512,9 +511,8 @@ theorem main_aux (n : Nat) : ∀ s : Bytes, s.length ≤ n → ∀ fv, s.length 
           intro h; have := congrArg List.length h; rw [hll] at this; simp at this; omega
         have hrw : runeWidthsAux (f1 + 1) ((c :: rest).take w ++ l') = w :: runeWidthsAux f1 l' := by
           rw [runeWidthsAux_succ _ _ hne', hdec l']
-          simp only [hne, hmax]
+          simp only [hmax]
           rw [List.drop_left' htk]
-          simp
         rw [hrw]
         refine ⟨by simp [hsum], ?_⟩
         intro fg pa pb hfg
